@@ -351,12 +351,17 @@ def expand(path, seen=None, defs=None):
         if st.startswith('//@@ define '):
             defs.add(st.split()[2])
             continue
-        if st.startswith('//@@ include '):
+        if st.startswith('//@@ include ') or st.startswith('//@@ include_stub '):
             name = st.split()[2]
             if name in seen:
                 continue
             seen.add(name)
-            out.append(expand(os.path.join(VERIF, 'units', 'inc', name + '.rs'), seen, defs))
+            sub = expand(os.path.join(VERIF, 'units', 'inc', name + '.rs'), seen, defs)
+            if st.startswith('//@@ include_stub '):
+                # contracts proved in the owning unit are *assumed* here: no body is extracted, so no anchor can be lost
+                sub = '\n'.join((l.rstrip() + ' mode=external_body stub=1') if l.strip().startswith('//@@ fn ') and 'mode=external_body' not in l else l
+                                for l in sub.split('\n'))
+            out.append(sub)
         else:
             out.append(ln)
     return '\n'.join(out)
@@ -403,6 +408,9 @@ def parse_template(path):
                         mode = 'rw_old'
                     elif w[0] == 'closure':
                         cur_rw = {'rule': 'R5c', 'ordinal': int(w[1][1:]) if len(w) > 1 and w[1].startswith('#') else None}
+                        mode = 'rw_old'
+                    elif w[0] == 'sigrw':
+                        cur_rw = {'rule': w[1], 'sig': True, 'ordinal': None, 'optional': False}
                         mode = 'rw_old'
                     elif w[0] == 'method':
                         cur_rw = {'rule': w[1], 'method': True, 'ordinal': 0, 'optional': True}
@@ -491,6 +499,8 @@ def _cfg_disabled(pre):
 
 def apply_rws(text, d, log):
     for rw in d.rws:
+        if rw.get('sig'):
+            continue
         if rw.get('method'):
             text = rewrite_method_calls(text, rw['old'].strip(), rw['new'].strip(), rw['rule'], log)
             continue
@@ -622,7 +632,10 @@ def rewrite_method_calls(text, name, fn, rule, log):
         open_off = s[j].start
         close = find_matching(text, open_off)
         args = text[open_off + 1:close - 1]
-        new = '%s(%s%s%s)' % (fn, recv.strip(), ', ' if args.strip() else '', args)
+        if '@@RECV' in fn:
+            new = fn.replace('@@RECV', recv.strip()).replace('@@ARGS', args)
+        else:
+            new = '%s(%s%s%s)' % (fn, recv.strip(), ', ' if args.strip() else '', args)
         log.append((rule, strip_ws(text[rstart:close]), strip_ws(new)))
         text = text[:rstart] + new + text[close:]
 
@@ -683,6 +696,11 @@ def gen_fn(d):
     body = src[it.header_end:it.end]
     orig = src[it.start:it.end]
     res = o.get('res', 'res')
+    for rw in d.rws:
+        if rw.get('sig'):
+            a, b = find_span(sigtext, rw['old'], None, 'signature rewrite site')
+            log.append((rw['rule'], strip_ws(sigtext[a:b]), strip_ws(rw['new'])))
+            sigtext = sigtext[:a] + rw['new'].strip() + sigtext[b:]
     sigtext = r4_result_name(sigtext.rstrip(), res, log)
     sigtext, mutnames = r9_mut_params(sigtext, log)
     if 'rename' in o:
@@ -709,7 +727,11 @@ def gen_fn(d):
             log.append(('R9s', 'self', 'vp_self'))
         if mutnames:
             body = '{' + ''.join('\n    let mut %s = %s;%s' % ('vp_self' if n == 'self' else n, n, GHOST_MARK) for n in mutnames) + body[1:]
+    elif o.get('stub') == '1':
+        body = '{ unimplemented!() }'
+        log.append(('STUB', 'body not extracted', 'contract assumed here, proved in the owning unit'))
     else:
+        body = r0_drop(r0_drop_disabled_cfg(body, log), log)
         log.append(('R6', 'whole function', 'external_body'))
     head = ''
     if external:
@@ -720,7 +742,7 @@ def gen_fn(d):
         'name': name, 'gen_name': o.get('rename', name), 'selector': selector, 'file': rel,
         'line': line_of(src, it.start), 'end_line': line_of(src, it.end),
         'props': [p for p in o.get('props', '').split(',') if p],
-        'rules': log, 'r1_sites': sum(1 for r in log if r[0] == 'R1'), 'external_body': external,
+        'rules': log, 'r1_sites': sum(1 for r in log if r[0] == 'R1'), 'external_body': external, 'stub': o.get('stub') == '1',
         'orig': orig,
     }
     return text, meta
@@ -736,8 +758,10 @@ def gen_item(d):
     text = r0_drop(text, log)
     text = r2_bytestrings(text, log)
     text = apply_rws(text, d, log)
-    if o.get('vis') == 'pub' and not text.lstrip().startswith('pub'):
-        text = 'pub ' + text
+    if o.get('vis') == 'pub':
+        text = re.sub(r'^\s*pub\s*\(\s*(crate|super)\s*\)\s*', '', text)
+        if not text.lstrip().startswith('pub'):
+            text = 'pub ' + text
     pre = d.contract.strip('\n')
     meta = {'name': name, 'gen_name': name, 'selector': kind, 'file': rel, 'line': line_of(src, it.start),
             'end_line': line_of(src, it.end), 'props': [], 'rules': log, 'r1_sites': 0, 'external_body': False,
@@ -788,7 +812,7 @@ def erasure_check(gen_text, meta):
         if rule == 'R9s':
             canon = re.sub(r'\bvp_self\b', 'self', canon)
             continue
-        if rule in ('R1', 'R5', 'R8', 'R2', 'R3', 'R7'):
+        if rule in ('R1', 'R5', 'R8', 'R2', 'R3', 'R7', 'R11', 'R12'):
             n = strip_ws(new)
             if n and n in canon:
                 canon = canon.replace(n, strip_ws(old), 1)
@@ -798,7 +822,8 @@ def erasure_check(gen_text, meta):
     # generated = sig' + contract + body ; source = sig + body.  Compare bodies: from first '{' of the source body.
     body_src = src_canon[src_canon.index('{'):] if '{' in src_canon else src_canon
     if meta.get('item'):
-        ok = body_src in canon
+        strip_vis = lambda s: re.sub(r'^(pub \( (crate|super) \) |pub )', '', s)
+        ok = strip_vis(body_src) in canon
     else:
         ok = canon.endswith(body_src)
     return ok, '' if ok else 'token stream of generated body differs from repo text after inverting declared rules'
@@ -839,6 +864,8 @@ def generate(unit, outdir=None):
         in_contract = False
         for l in text.rstrip('\n').split('\n'):
             ent = {'k': 'code', 'fn': key}
+            if meta.get('stub'):
+                ent['stub'] = True
             m = re.search(r'//\s*id:\s*([A-Za-z0-9_\-.]+)\s*(\[([A-Z0-9, ]*)\])?', l)
             if m:
                 cur_clause = m.group(1)
